@@ -720,7 +720,13 @@ static Label p4_func_x64(x86::Compiler& cc, int j, Errs& er) {
     if (!f) return Label();
     x86::Gp arg = cc.new_gp32("arg"); f->set_arg(0, arg);
     x86::Gp a = cc.new_gp32("a"), b = cc.new_gp32("b"), c = cc.new_gp32("c"), d = cc.new_gp32("d");
-    er(cc.mov(a, arg)); er(cc.xor_(c, c)); er(cc.cpuid(a, b, c, d)); er(cc.add(a, b)); er(cc.add(a, c)); er(cc.add(a, d)); er(cc.ret(a)); er(cc.end_func());
+    er(cc.mov(a, arg)); er(cc.xor_(c, c)); er(cc.cpuid(a, b, c, d)); er(cc.add(a, b)); er(cc.add(a, c)); er(cc.add(a, d));
+    // one virtual register of every other register group (vector, mask, MMX): the per-function cleanup covers all of them
+    x86::Vec xv = cc.new_xmm("xv"); x86::KReg kv = cc.new_kw("kv"); x86::Mm mv = cc.new_mm("mv");
+    er(cc.movd(xv, a)); er(cc.paddd(xv, xv)); er(cc.movd(b, xv)); er(cc.add(a, b));
+    er(cc.kmovw(kv, a)); er(cc.kmovw(b, kv)); er(cc.add(a, b));
+    er(cc.movd(mv, a)); er(cc.paddd(mv, mv)); er(cc.movd(b, mv)); er(cc.add(a, b)); er(cc.emms());
+    er(cc.ret(a)); er(cc.end_func());
     return f->label();
   }
   if (j == 1) {
